@@ -3,7 +3,7 @@
 from fractions import Fraction as F
 
 from . import catalogue as K, desc as D, drivers as DR
-from .absval import Q, NAN, frac
+from .absval import Q, NAN, EMPTYNAME, frac
 
 
 # ------------------------------------------------------------------------------------------------
@@ -109,7 +109,8 @@ def with_forms(rng, d):
     for path, node in list(D.walk(d)):
         if "q" not in node or node["k"] == "Bag":
             continue
-        form = rng.choice(["fn", "fn", "str", "named", "cached", "def", "cachednamed", "deflam", "deflam"])
+        form = rng.choice(["fn", "fn", "str", "named", "cached", "def", "cachednamed", "deflam", "deflam",
+                           "emptynamed", "emptystr", "emptycached"])
         new = dict(D.node_at(out, path))
         if form == "str":
             new.update(form="str", nm=new["q"])
@@ -123,6 +124,13 @@ def with_forms(rng, d):
             new.update(form="def", nm="def_" + new["q"])
         elif form == "deflam":
             new.update(form="deflam")
+        elif form == "emptynamed":
+            # a falsy but explicit name: named("", f) is a named quantity whose name is the empty string
+            new.update(form="fn", nm=EMPTYNAME)
+        elif form == "emptystr":
+            new.update(form="str", nm=EMPTYNAME)
+        elif form == "emptycached":
+            new.update(form="cached", nm=EMPTYNAME)
         out = D.replace_at(out, path, new)
     return out
 
